@@ -165,7 +165,12 @@ def _alarm(signum, frame):
 signal.signal(signal.SIGALRM, _alarm)
 cases = json.load(sys.stdin)
 out = []
+n_timeouts = 0
 for case in cases:
+    if n_timeouts >= 3:
+        # an implementation that stopped terminating: three witnesses are enough, the run must end
+        out.append({"raise": "Timeout (not run: three earlier cases did not terminate within 10 s)"})
+        continue
     node_ids = [str(v) for v in case["nodes"]]
     edge_dict, edge_tuples = {}, []
     for a, b in case["edges"]:           # exactly DependencyGraph._add_edge
@@ -186,6 +191,7 @@ for case in cases:
             res.append([int(node), int(x), int(y2)])
         out.append(res)
     except _Timeout:
+        n_timeouts += 1
         out.append({"raise": "Timeout (no result within 10 s)"})
     except BaseException as e:
         signal.setitimer(signal.ITIMER_REAL, 0)
